@@ -356,6 +356,23 @@ class Run(object):
                     res.remove(victim)
                     rl.remove(victim)
                 self.derived = (self.derived + [(res, rl, name)])[-3:]
+        elif name == 'subset-with-holes':
+            # an IndexedSet operand that IS a subset of self and carries a tombstone of its own (a filler inserted in
+            # its middle and discarded again; it survives un-compacted when the operand has 8 items and more)
+            base = L[:int(op[1] * len(L))] if op[2] == 'head' else L[len(L) - int(op[1] * len(L)):]
+            filler = 10 ** 7 + 1
+            o = su.IndexedSet(base[:len(base) // 2] + [filler] + base[len(base) // 2:])
+            o.discard(filler)
+            for pred in ('issuperset', 'isdisjoint', 'issubset'):
+                for recv, arg, py in ((s, o, getattr(set(L), pred)(set(base))), (o, s, getattr(set(base), pred)(set(L)))):
+                    got = outcome(lambda: getattr(recv, pred)(arg))
+                    if got != ('ok', py):
+                        self.fail('result[%s]' % pred, '%s with an IndexedSet operand that has a hole of its own: %r, Python sets say %r '
+                                  '(self %r, operand items %r)' % (pred, got, py, trim(L), trim(base)))
+                    if st is not None:
+                        st.monitor_evals += 1
+            if st is not None and getattr(o, 'dead_indices', None):
+                st.count('predicates_against_operands_with_live_holes')
         elif name in ('issubset', 'issuperset', 'isdisjoint'):
             operand = mk_operand(su, op[1][0], op[1][1])
             py = getattr(set(L), name)(operand)
@@ -449,6 +466,8 @@ class Check(object):
             m = r.choice(['or', 'and', 'sub', 'xor', 'ror', 'rand', 'rxor', 'rsub'])
             allow = ('set', 'frozenset', 'iset') if m in ('or', 'and', 'sub', 'xor') else ('set', 'frozenset')
             return [m, [self.operand(r, pool, allow)]]
+        if r.random() < 0.3:
+            return ['subset-with-holes', r.choice([1.0, 1.0, 0.5, 0.9]), r.choice(['head', 'tail'])]
         return [r.choice(['issubset', 'issuperset', 'isdisjoint']), self.operand(r, pool)]
 
     def gen(self, r, ctx):
